@@ -1384,7 +1384,8 @@ def scan_process_and_entropy(w: World, S: dict, an: Analysis, inside):
                         else:
                             mode = "?"
                     if "b" not in mode and len(n.args) <= enc_pos and (named or n.func.attr != "open" or not n.args or isinstance(n.args[0], ast.Constant)):
-                        eid = uniq(f"{ctx}:E_locale:open-without-encoding")
+                        rw = "w" if any(c in mode for c in "wax+") else ("?" if mode == "?" else "r")
+                        eid = uniq(f"{ctx}:E_locale:open-without-encoding[{rw}]")
                         E[eid] = Entropy(eid, "E_locale", rel(w, m, n.lineno), "text-mode file opened without encoding=: " + ast.unparse(n)[:70], False)
                 if isinstance(n.func, ast.Attribute):
                     meth = n.func.attr
@@ -1901,6 +1902,25 @@ class ProvWalk:
             return set()  # module-level name bound to something that is not path-like (seen by the module walk)
         return {("UNK", f"external object {ref}")}
 
+    def super_candidates(self, name):
+        f = self.f
+        while f is not None and f.cls is None:
+            f = f.outer
+        if f is None:
+            return []
+        out, seen = [], set()
+        stack = [self.w.classes[r] for r in (self.w.resolve(b, f.cls.mod) for b in f.cls.bases) if r in self.w.classes]
+        while stack:
+            k = stack.pop()
+            if k.cid in seen:
+                continue
+            seen.add(k.cid)
+            if name in k.methods:
+                out.append((k.methods[name], 1))
+                continue
+            stack.extend(self.w.classes[r] for r in (self.w.resolve(b, k.mod) for b in k.bases) if r in self.w.classes)
+        return out
+
     def bind_args(self, call, g: Func, off):
         """[(param, arg expr)] for a call reaching g; omitted params with defaults are recorded."""
         bound = {}
@@ -1923,6 +1943,9 @@ class ProvWalk:
         fw = FuncWalk.__new__(FuncWalk)
         fw.w, fw.mod, fw.local_names = w, self.mod, self.local_names
         cands, ref = FuncWalk.candidates(fw, call)
+        if isinstance(call.func, ast.Attribute) and isinstance(call.func.value, ast.Call) and isinstance(call.func.value.func, ast.Name) and call.func.value.func.id == "super":
+            # super().m(...): only the base classes of the enclosing class, not every method called m
+            cands = self.super_candidates(call.func.attr)
         argo = [self.O(a.value if isinstance(a, ast.Starred) else a) for a in call.args]
         kwo = {k.arg: self.O(k.value) for k in call.keywords}
         recv = None
@@ -1936,11 +1959,18 @@ class ProvWalk:
         where = rel(w, self.mod, call.lineno)
         # --- sinks
         if ref in FS_FUNCS:
+            what = ref
+            if ref in ("builtins.open", "io.open", "codecs.open"):
+                mexpr = call.args[1] if len(call.args) > 1 else next((k.value for k in call.keywords if k.arg == "mode"), None)
+                if mexpr is not None:
+                    mode = mexpr.value if isinstance(mexpr, ast.Constant) and isinstance(mexpr.value, str) else "?"
+                    if mode == "?" or any(c in mode for c in "wax+"):
+                        what = f"{ref}[{'write' if mode != '?' else 'mode?'}]"
             for i in FS_FUNCS[ref]:
                 if i < len(call.args):
-                    self.sink(call, ref, argo[i], ast.unparse(call.args[i]))
+                    self.sink(call, what, argo[i], ast.unparse(call.args[i]))
                 elif i == 0 and call.keywords and call.keywords[0].arg in ("file", "path", "name", "filename", "src"):
-                    self.sink(call, ref, kwo[call.keywords[0].arg], ast.unparse(call.keywords[0].value))
+                    self.sink(call, what, kwo[call.keywords[0].arg], ast.unparse(call.keywords[0].value))
         if ref in FS_KW:
             for kw in FS_KW[ref]:
                 if kw in kwo:
@@ -1952,7 +1982,10 @@ class ProvWalk:
                 # only receivers that are path-like (some origin) or not understood at all are sinks
                 r = recv if recv is not None else set()
                 own = [g for g, off in cands if off == 1]
-                if r or not own:
+                # the package defines a method of this name (e.g. Carboxylic.rename): a call on self / on an
+                # object handed in is that method, unless the receiver is visibly a path value
+                pathish = any(t[0] in ("PKG", "LIT", "REL", "ENV", "OPT") for t in r)
+                if pathish or not own:
                     if meth == "open" and not r:
                         r = {("UNK", f"receiver of .open() not understood: {ast.unparse(call.func.value)[:40]}")}
                     if r:
@@ -2055,7 +2088,7 @@ class ProvWalk:
 
     def sink(self, call, what, origins, text):
         key = (self.ctx, rel(self.w, self.mod, call.lineno), what, text[:60])
-        rec = self.pw.sinks.setdefault(key, {"ctx": self.ctx, "where": key[1], "what": what, "text": text[:60], "origins": set()})
+        rec = self.pw.sinks.setdefault(key, {"ctx": self.ctx, "where": key[1], "what": what, "text": text[:60], "origins": set(), "end_line": getattr(call, "end_lineno", call.lineno)})
         rec["origins"] |= origins if origins else {("UNK", "path expression not understood")}
 
     # ---- statements
@@ -2198,61 +2231,88 @@ def scan_fs_access(w: World, E: dict, path_options: dict):
 
     def flag(ctx, where, what, tag, chain):
         why = describe_tag(tag)
-        key = (ctx, where, what, why)
-        if key not in flagged:
-            flagged[key] = f"{why} -> " + " -> ".join(chain)
+        lst = flagged.setdefault((ctx, where, what), [])
+        txt = f"{why} -> " + " -> ".join(chain)
+        if txt not in lst:
+            lst.append(txt)
 
-    def judge(ctx, where, origins, chain, text, seen):
-        """classify a value reaching a path sink; returns verdict words"""
-        verdicts = set()
+    pverd = {}  # (fid, p) -> [direct verdict words, next params]
+    work = []
+
+    def classify(ctx, where, origins, chain, text):
+        """one step: verdict words for the tags of a value reaching a path sink, and the parameters it defers to"""
+        words, nxt = set(), set()
         for t in sorted(origins):
             if t[0] == "PKG":
-                verdicts.add("package-dir")
+                words.add("package-dir")
             elif t[0] == "OPT":
                 if t[1] in path_options:
-                    verdicts.add(f"option:{t[1]}")
+                    words.add(f"option:{t[1]}")
                 else:
-                    verdicts.add("FLAGGED")
+                    words.add("FLAGGED")
                     flag(ctx, where, chain[-1].split(" at ")[0], ("OPT?", f"option --{t[1]} is not a path-carrying option and reaches a file lookup"), [f"{text} at {where}"] + chain)
             elif t[0] == "P":
-                fid, p = t[1], t[2]
-                if (fid, p) in seen:
+                f = w.func_by_id[t[1]]
+                if f.is_method and f.pos and t[2] == f.pos[0]:
+                    words.add("self")  # attributes of self are judged through the attribute stores
                     continue
-                seen2 = seen | {(fid, p)}
-                f = w.func_by_id[fid]
-                is_self = f.is_method and f.pos and p == f.pos[0]
-                binds = pw.bindings.get((fid, p), {})
-                sub_chain = [f"{fid}({p})"] + chain
-                if is_self:
-                    verdicts.add("self")  # attributes of self are judged through the attribute stores
-                    continue
-                if not binds and fid not in pw.called:
-                    verdicts.add(f"entry-parameter:{fid}({p})")
-                for key in sorted(binds):
-                    bctx, bwhere, bo, btext = binds[key]
-                    if not bo:
-                        continue  # None / number / object: not a path value
-                    verdicts |= judge(bctx, bwhere, bo, sub_chain, btext, seen2)
-                if (fid, p) in pw.defaults and ((fid, p) in pw.omitted or fid not in pw.called):
-                    do, dwhere, dtext = pw.defaults[(fid, p)]
-                    if do:
-                        verdicts |= judge(fid, dwhere, do, sub_chain, f"default {dtext}", seen2)
+                nxt.add((t[1], t[2]))
+                if (t[1], t[2]) not in pverd:
+                    pverd[(t[1], t[2])] = None
+                    work.append(((t[1], t[2]), chain))
             else:
-                verdicts.add("FLAGGED")
+                words.add("FLAGGED")
                 flag(ctx, where, chain[-1].split(" at ")[0], t, [f"{text} at {where}"] + chain)
-        return verdicts
+        return words, nxt
 
+    direct = {}
     for key in sorted(pw.sinks):
         rec = pw.sinks[key]
-        chain = [f"{rec['what']} at {rec['where']}"]
-        v = judge(rec["ctx"], rec["where"], rec["origins"], chain, rec["text"], frozenset())
-        sites.append({"where": rec["where"], "func": rec["ctx"], "access": rec["what"], "path": rec["text"], "origins": sorted(describe_tag(t) for t in rec["origins"]), "verdict": sorted(v)})
-    for (ctx, where, what, why), detail in sorted(flagged.items()):
+        direct[key] = classify(rec["ctx"], rec["where"], rec["origins"], [f"{rec['what']} at {rec['where']}"], rec["text"])
+    while work:
+        (fid, p), chain = work.pop(0)
+        words, nxt = set(), set()
+        binds = pw.bindings.get((fid, p), {})
+        sub_chain = [f"{fid}({p})"] + chain
+        if not binds and fid not in pw.called:
+            words.add(f"entry-parameter:{fid}({p})")
+        for bkey in sorted(binds):
+            bctx, bwhere, bo, btext = binds[bkey]
+            if not bo:
+                continue  # None / number / object: not a path value
+            a, b = classify(bctx, bwhere, bo, sub_chain, btext)
+            words |= a
+            nxt |= b
+        if (fid, p) in pw.defaults and ((fid, p) in pw.omitted or fid not in pw.called):
+            do, dwhere, dtext = pw.defaults[(fid, p)]
+            if do:
+                a, b = classify(fid, dwhere, do, sub_chain, f"default {dtext}")
+                words |= a
+                nxt |= b
+        pverd[(fid, p)] = [words, nxt]
+    changed = True
+    while changed:
+        changed = False
+        for k, (words, nxt) in pverd.items():
+            for q in nxt:
+                extra = pverd[q][0] - words
+                if extra:
+                    words |= extra
+                    changed = True
+    for key in sorted(pw.sinks):
+        rec = pw.sinks[key]
+        words, nxt = direct[key]
+        v = set(words)
+        for q in nxt:
+            v |= pverd[q][0]
+        sites.append({"where": rec["where"], "end_line": rec["end_line"], "func": rec["ctx"], "access": rec["what"], "path": rec["text"], "origins": sorted(describe_tag(t) for t in rec["origins"]), "verdict": sorted(v)})
+    for (ctx, where, what), details in sorted(flagged.items()):
         base = f"{ctx}:E_fs_cwd:{what}"
         counters[base] = counters.get(base, 0) + 1
         eid = f"{base}#{counters[base]}"
-        E[eid] = Entropy(eid, "E_fs_cwd", where, detail[:300], False)
-    return sites, dests
+        E[eid] = Entropy(eid, "E_fs_cwd", where, " || ".join(sorted(details))[:400], False)
+    collisions = sorted({f"{g.fid}" for g in w.funcs if g.cls is not None and g.name in FS_PATH_METHODS | FS_PATH_METHODS_1ARG})
+    return sites, dests, collisions
 
 
 # ---------------------------------------------------------------------------
@@ -2343,7 +2403,7 @@ def generate(repo: Path | None = None):
     E = scan_process_and_entropy(w, S, an, inside)
     st = scan_set_iteration(w, E)
     path_options = load_path_options()
-    fs_sites, dests = scan_fs_access(w, E, path_options)
+    fs_sites, dests, collisions = scan_fs_access(w, E, path_options)
     for s in S.values():
         if s.kind not in SURV_KINDS:
             raise GenError(f"unknown survivor kind {s.kind}")
@@ -2375,6 +2435,7 @@ def generate(repo: Path | None = None):
         "fs_access_sites": fs_sites,
         "path_options": {k: {"declared_at": dests.get(k, []), "reason": v} for k, v in sorted(path_options.items())},
         "stale_path_options": sorted(k for k in path_options if k not in dests),
+        "fs_method_name_collisions": collisions,
     }
     return emit_coq(repo, S, E), data
 
